@@ -402,9 +402,25 @@ Qed.
 
 End Final.
 
+Lemma seg_eq_nth a b l l' i : seg a b l = seg a b l' ->
+  (Z.to_nat a <= i < Z.to_nat (b + 1))%nat -> nth_error l i = nth_error l' i.
+Proof.
+  intros E Hi.
+  assert (H : forall m, nth_error (seg a b m) (i - Z.to_nat a) = nth_error m i).
+  { intro m. unfold seg. rewrite nth_error_firstn by lia. rewrite nth_error_skipn. f_equal. lia. }
+  rewrite <- (H l), <- (H l'), E. reflexivity.
+Qed.
+
 (* ------------------------------------------------------------------ cxOrdered *)
+(* both children are permutations of their parents' genes, and on the segment [a, b] each child
+   holds the other parent's genes *)
+Definition ordered_post (p1 p2 : list Z) (c : list Z * list Z) : Prop :=
+  perm_post p1 p2 c /\
+  exists a b : nat, (a < b < length p1)%nat /\
+    forall i, (a <= i <= b)%nat -> swapped_at p1 p2 (fst c) (snd c) i.
+
 Lemma wp_cxOrdered p1 p2 : is_perm p1 -> is_perm p2 -> length p1 = length p2 -> (2 <= length p1)%nat ->
-  wp (cxOrdered p1 p2) (perm_post p1 p2).
+  wp (cxOrdered p1 p2) (ordered_post p1 p2).
 Proof.
   intros P1 P2 E Hn2. unfold cxOrdered.
   assert (L2 : zlen p2 = zlen p1) by (unfold zlen; lia).
@@ -442,11 +458,20 @@ Proof.
     assert (F2 : firstn (Z.to_nat n) (Rot b p2) = Rot b p2) by (apply firstn_all2; unfold Rot; rewrite app_length, skipn_length, firstn_length; unfold n, zlen in *; lia).
     rewrite F1 in HR1. rewrite F2 in HR2.
     eapply wp_conseq; [apply (wp_swap_range l1 l2 a (b + 1)); lia|].
-    intros [c1 c2] [Ec1 Ec2]. cbn [fst snd] in *. subst c1 c2.
+    intros [c1 c2] MS. pose proof MS as [Ec1 Ec2]. cbn [fst snd] in *.
     assert (Hab' : 0 <= a <= b) by lia. assert (Hbn : b < n) by lia.
     pose proof (ox_segment n a b Hab' Hbn p1 p2 h1 l1 P1 P2 eq_refl L2 HS1 LL1 HR1) as G1.
     pose proof (ox_segment n a b Hab' Hbn p2 p1 h2 l2 P2 P1 L2 eq_refl HS2 LL2 HR2) as G2.
     split.
-    + apply (ox_child n a b Hab' Hbn p1 p2 h1 l1 l2); auto.
-    + apply (ox_child n a b Hab' Hbn p2 p1 h2 l2 l1); auto.
+    + subst c1 c2. split; cbn [fst snd].
+      * apply (ox_child n a b Hab' Hbn p1 p2 h1 l1 l2); auto.
+      * apply (ox_child n a b Hab' Hbn p2 p1 h2 l2 l1); auto.
+    + exists (Z.to_nat a), (Z.to_nat b). split; [unfold n, zlen in *; lia|].
+      intros i Hi. cbn [fst snd].
+      assert (Hi' : (Z.to_nat a <= i < Z.to_nat (b + 1))%nat) by lia.
+      destruct (mids_swapped_locus l1 l2 c1 c2 (Z.to_nat a) (Z.to_nat (b + 1))
+                  ltac:(lia) ltac:(unfold zlen in *; lia) ltac:(unfold zlen in *; lia) MS i) as [Sw _].
+      destruct (Sw Hi') as [S1 S2]. split.
+      * rewrite S1. exact (seg_eq_nth a b l2 p2 i G2 Hi').
+      * rewrite S2. exact (seg_eq_nth a b l1 p1 i G1 Hi').
 Qed.
